@@ -106,4 +106,3 @@ func Gen(seed int64, label string, k int, realTime bool) *Scenario {
 	}
 	return sc
 }
-
